@@ -1,21 +1,23 @@
 ---------------------------- MODULE TgQueue_Trace ----------------------------
 (* Trace validation for C33.  Item: [rate, ev]; events (t = virtual ms)
-   put {id, kind}   send_start {id, t}   send_end {id, ok, t}   con {t}   proc {id}   joined {t} (xknx.join() returned)   stopped (stop returned) *)
+   put {id, kind}   send_start {id, t, tu (microseconds)}   send_end {id, ok, t}   con {t}   proc {id}   joined {t} (xknx.join() returned)   stopped (stop returned) *)
 EXTENDS Integers, Sequences, FiniteSets, Json, IOUtils, TLC
 Traces == ndJsonDeserialize(IOEnv.TRACE_FILE)
-VARIABLES pending, open, inflight, lastStart, sent, processed, awaiting, awaitSince, confirmed, internal, tid, l
-vars == <<pending, open, inflight, lastStart, sent, processed, awaiting, awaitSince, confirmed, internal, tid, l>>
+VARIABLES pending, open, inflight, lastStart, sent, processed, awaiting, awaitSince, confirmed, internal, lastUs, tid, l
+vars == <<pending, open, inflight, lastStart, sent, processed, awaiting, awaitSince, confirmed, internal, lastUs, tid, l>>
 Q == INSTANCE TgQueue WITH Rate <- 0
 Ev == Traces[tid].ev[l]
 Rate == Traces[tid].rate
-TInit == tid \in 1..Len(Traces) /\ l = 1 /\ Q!Init /\ internal = {}
+TInit == tid \in 1..Len(Traces) /\ l = 1 /\ Q!Init /\ internal = {} /\ lastUs = -1
 Quiet == pending = <<>> /\ inflight = 0
 Step ==
   /\ l <= Len(Traces[tid].ev) /\ l' = l + 1 /\ UNCHANGED tid
+  /\ lastUs' = (IF Ev.ev = "send_start" THEN Ev.tu ELSE lastUs)           \* microseconds, for rates whose period is no whole millisecond
   /\ \/ /\ Ev.ev = "put" /\ Q!Put(Ev.id, Ev.kind)
         /\ internal' = IF Ev.kind = "internal" THEN internal \cup {Ev.id} ELSE internal
      \/ /\ Ev.ev = "send_start" /\ Q!StartSend(Ev.id, Ev.t) /\ UNCHANGED internal
-        /\ (Rate > 0 /\ lastStart # -1) => (Ev.t - lastStart) * Rate >= 1000          \* at least 1/r seconds apart
+        /\ (Rate > 0 /\ lastStart # -1) =>                                            \* at least 1/r seconds apart (to the microsecond)
+              (Ev.tu - lastUs >= 1000000 \/ (Ev.tu - lastUs + 1) * Rate >= 1000000)
      \/ Ev.ev = "send_end" /\ Q!EndSend(Ev.id, Ev.ok = 1, Ev.t) /\ UNCHANGED internal
      \/ Ev.ev = "con" /\ Q!Con /\ UNCHANGED internal
      \/ Ev.ev = "proc" /\ Q!Process(Ev.id) /\ UNCHANGED internal
